@@ -8,6 +8,8 @@ use std::task::{RawWaker, RawWakerVTable, Waker};
 
 pub const MAX_WAKERS: usize = 64;
 pub const WAKE_LOG_CAP: usize = 256;
+/// identity of the waker shared by all slots when `Cfg::sw == 1` (odd, so it counts as variant B)
+pub const SHARED_WAKER: usize = MAX_WAKERS - 1;
 
 pub struct Tls {
     /// logical time: incremented at every poll begin and every wake
@@ -34,6 +36,8 @@ pub struct Tls {
     pub clock: Cell<u64>,
     /// set while a library call is running (re-entrancy check for CheckedLock)
     pub in_call: Cell<bool>,
+    /// waker variant B is one waker shared by all slots (Cfg::sw)
+    pub shared_b: Cell<bool>,
 }
 
 #[allow(clippy::declare_interior_mutable_const)]
@@ -61,6 +65,7 @@ thread_local! {
         last_panic: RefCell::new(String::new()),
         clock: Cell::new(0),
         in_call: Cell::new(false),
+        shared_b: Cell::new(false),
     } };
 }
 
@@ -115,7 +120,17 @@ pub fn reset_history() {
         t.deallocs.set(0);
         t.clock.set(0);
         t.in_call.set(false);
+        t.shared_b.set(false);
     })
+}
+
+/// Selects the waker universe of the history that starts now (call after `reset_history`).
+pub fn set_shared_b(on: bool) {
+    TLS.with(|t| t.shared_b.set(on))
+}
+
+pub fn shared_b() -> bool {
+    TLS.with(|t| t.shared_b.get())
 }
 
 pub fn tick() -> u64 {
